@@ -4,7 +4,7 @@ CFG = {'assumptions': ['f64 inputs cross the boundary as bit patterns and are de
                  'coordinates, ratios, distances and max are finite and of moderate magnitude (no overflow / '
                  'subnormal intermediate results); max_segment_length > 0'],
  'count': {'quick': 24000, 'thorough': 1000000},
- 'lean_files': ['GeoModel/Interp.lean', 'GeoModel/Ops/C15.lean'],
+ 'lean_files': ['GeoModel/Interp.lean', 'GeoModel/Ops/C15.lean', 'GeoProofs/Lemmas/C15.lean'],
  'rule': 'random Lines and LineStrings (0-6 vertices; axis-aligned / Pythagorean steps with rational lengths, '
          'grid and moderate-range float coordinates; repeated vertices, zero-length lines, back-tracking paths) x '
          'ratios {0, 1, dyadic, negative, >1, exactly at a vertex, 1+-eps, +-1e6, random} x distances {0, negative, '
